@@ -787,6 +787,70 @@ Section P.
     apply (filter_short _ (fun kv => lower (fst kv))); [apply Hu|].
     intros x y Hx Hy. unfold sets_param in *. apply keqb_eq in Hx, Hy. congruence.
   Qed.
+
+  (* ================= part 4: the oracle of Spec.v accepts every run of the (repaired) model ================= *)
+  Variable veqb : V -> V -> bool.
+  Hypothesis veqb_refl : forall v, veqb v v = true.
+  Notation ok_err' := (ok_err keqb lower is_none known parse srcs src_local).
+  Notation ok_value' := (ok_value keqb lower is_none known parse srcs src_local veqb).
+  Notation allowed' := (allowed keqb lower is_none parse srcs src_local).
+  Notation mentioned' := (mentioned lower known).
+
+  Lemma agetN_in : forall B (s : N) (v : B) l, aget N.eqb s l = Some v -> In (s, v) l.
+  Proof.
+    induction l as [|[s' v'] l IH]; simpl; intros H; [discriminate|].
+    destruct (s =? s') eqn:E.
+    - apply N.eqb_eq in E. inversion H; subst. auto.
+    - right; auto.
+  Qed.
+
+  Lemma setter_mentioned : forall (c : cfg K R) lk m s rv, known lk = Some m -> In rv (setters' c m s) -> In m (mentioned' c).
+  Proof.
+    intros c lk m s rv Hk Hin. unfold setters in Hin. destruct (eligible src_local m s); [|destruct Hin].
+    apply in_map_iff in Hin. destruct Hin as (kv & _ & Hkv). apply filter_In in Hkv. destruct Hkv as [Hkv Hsp].
+    unfold src_kvs in Hkv. destruct (aget N.eqb s c) as [l|] eqn:E; [|destruct Hkv].
+    apply agetN_in in E. unfold mentioned. apply in_flat_map. exists (s, l). split; auto.
+    simpl. apply in_flat_map. exists kv. split; auto.
+    unfold sets_param in Hsp. apply keqb_eq in Hsp. rewrite Hsp, (known_name _ _ Hk), Hk. simpl; auto.
+  Qed.
+
+  Lemma mentioned_known : forall (c : cfg K R) m, In m (mentioned' c) -> exists lk, known lk = Some m.
+  Proof.
+    intros c m H. unfold mentioned in H. apply in_flat_map in H. destruct H as (sl & _ & H).
+    apply in_flat_map in H. destruct H as (kv & _ & H).
+    destruct (known (lower (fst kv))) eqn:E; [|destruct H]. destruct H as [<-|[]]. eauto.
+  Qed.
+
+  Theorem model_meets_spec_unsorted : forall (c : cfg K R),
+    ok_err' c (res_err (resolve' true false c)) = true
+    /\ forall st, resolve' true false c = Some st ->
+         forall lk m, known lk = Some m -> ok_value' c (pm_name m) (effective keqb st m) = true.
+  Proof.
+    intros c. pose proof (resolve_spec true c) as H.
+    destruct (resolve' true false c) as [st|] eqn:Er; simpl.
+    - destruct H as [Hnf Hval]. split.
+      + apply forallb_forall. intros m Hm. destruct (mentioned_known c m Hm) as [lk Hk].
+        unfold allowed. destruct (deciding' c m) as [s|] eqn:Ed; [|reflexivity].
+        destruct (deciding_in c m s Ed) as [Hs Hne].
+        destruct (setters' c m s) as [|rv l] eqn:Es; [congruence|]. simpl.
+        destruct (value_of' m rv) eqn:Ev; [reflexivity|].
+        exfalso. apply Hnf. exists lk, m, s, rv. repeat split; auto. rewrite Es. simpl; auto.
+      + intros st' E lk m Hk. inversion E; subst st'. unfold ok_value. rewrite (known_name _ _ Hk), Hk.
+        specialize (Hval lk m Hk). unfold spec_outcome in Hval. unfold allowed.
+        destruct (deciding' c m) as [s|] eqn:Ed.
+        * destruct (rev (setters' c m s)) as [|rv l] eqn:Erv.
+          -- destruct (deciding_in c m s Ed) as [_ Hne]. exfalso. apply Hne.
+             rewrite <- (rev_involutive (setters' c m s)), Erv. reflexivity.
+          -- apply existsb_exists. exists (value_of' m rv). split.
+             ++ apply in_map. apply in_rev. rewrite Erv. simpl; auto.
+             ++ rewrite <- Hval. apply veqb_refl.
+        * simpl. inversion Hval. now rewrite veqb_refl.
+    - split; [|intros; discriminate].
+      destruct H as (lk & m & s & rv & Hk & Hs & Hd & Hin & Hv). specialize (Hd eq_refl).
+      apply existsb_exists. exists m. split; [now apply (setter_mentioned c lk m s rv)|].
+      unfold allowed. rewrite Hd. apply existsb_exists. exists (value_of' m rv). split; [now apply in_map|].
+      now rewrite Hv.
+  Qed.
 End P.
 
 (* ---- the byte-string instance ---- *)
